@@ -133,7 +133,7 @@ func khParse(op string) (*khCase, bool) {
 			kv[t[:i]] = t[i+1:]
 		}
 	}
-	if kv["side"] != "http" && kv["side"] != "ctxw" && kv["side"] != "srvw" {
+	if kv["side"] != "http" && kv["side"] != "ctxw" && kv["side"] != "srvw" && kv["side"] != "shttp" {
 		return nil, false
 	}
 	c := &khCase{side: kv["side"], pv: kv["pv"]}
@@ -651,7 +651,9 @@ func TestVerifKeepAliveHTTP(t *testing.T) {
 	emit := func(prefix string, c *khCase) {
 		id := fmt.Sprintf("%s%d", prefix, n)
 		var obs string
-		if c.side == "ctxw" || c.side == "srvw" {
+		if c.side == "shttp" {
+			obs = khRunSrvHTTP(t, c)
+		} else if c.side == "ctxw" || c.side == "srvw" {
 			obs = khRunCtx(t, c)
 		} else {
 			obs = khRun(t, c)
@@ -666,7 +668,7 @@ func TestVerifKeepAliveHTTP(t *testing.T) {
 		}
 		for _, ln := range strings.Split(string(b), "\n") {
 			ln = strings.TrimSpace(ln)
-			if !strings.HasPrefix(ln, "kas ") || !(strings.Contains(ln, " side=http ") || strings.Contains(ln, " side=ctxw ") || strings.Contains(ln, " side=srvw ")) {
+			if !strings.HasPrefix(ln, "kas ") || !(strings.Contains(ln, " side=http ") || strings.Contains(ln, " side=ctxw ") || strings.Contains(ln, " side=srvw ") || strings.Contains(ln, " side=shttp ")) {
 				continue // the other lines belong to the streams `loop` and `sessions`
 			}
 			c, ok := khParse(ln)
@@ -778,6 +780,38 @@ func TestVerifKeepAliveHTTP(t *testing.T) {
 			}
 		}
 	}
+	if os.Getenv("VERIF_CASES") == "" {
+		// the real streamable SERVER transport: every pattern of length 1..4 over {answered, the client has no
+		// standalone stream at that tick (ping refused), never answered} — and -32601 / -32603 as the first reply —
+		// followed by answers, x thresholds 0..3
+		const I = 1000
+		for l := 1; l <= 4; l++ {
+			for code, total := 0, pow3(l); code < total; code++ {
+				for T := 0; T <= 3; T++ {
+					var w []khStep
+					for i, cd := 0, code; i < l; i, cd = i+1, cd/3 {
+						w = append(w, []khStep{{'j', int64(3 + 4*i), 0}, {'R', 0, 0}, {kind: 'n'}}[cd%3])
+					}
+					w = append(w, khStep{'j', 11, 0}, khStep{'j', 5, 0})
+					c := &khCase{side: "shttp", I: I, T: T, wire: w, pv: []string{protocolVersion20251125, protocolVersion20250618}[(T+l)%2]}
+					c.derive()
+					c.tc = kaAfter(I, c.script)
+					emit("g", c)
+				}
+			}
+		}
+		for _, k := range []byte("Jx") {
+			for _, d := range []int64{3, I/2 + 101} {
+				for T := 0; T <= 2; T++ {
+					w := []khStep{{'j', 7, 0}, {k, d, 0}, {'R', 0, 0}, {'j', 9, 0}}
+					c := &khCase{side: "shttp", I: I, T: T, wire: w, pv: protocolVersion20251125}
+					c.derive()
+					c.tc = kaAfter(I, c.script)
+					emit("g", c)
+				}
+			}
+		}
+	}
 	rng := verifRng(1313)
 	nr := verifN(600, 8000)
 	for i := 0; i < nr; i++ {
@@ -789,5 +823,40 @@ func TestVerifKeepAliveHTTP(t *testing.T) {
 		if i%3 == 0 {
 			emit("v", khRandomCtx(rng, 8, 4))
 		}
+		if i%4 == 1 {
+			emit("g", khRandomSrvHTTP(rng, 8, 4))
+		}
 	}
+}
+
+func pow3(n int) int {
+	r := 1
+	for ; n > 0; n-- {
+		r *= 3
+	}
+	return r
+}
+
+func khRandomSrvHTTP(rng *rand.Rand, maxLen, maxT int) *khCase {
+	I := []int64{1000, 5000, 30_000_000_000}[rng.Intn(3)]
+	c := &khCase{side: "shttp", I: I, T: rng.Intn(maxT+2) - 1, pv: []string{protocolVersion20251125, protocolVersion20250618}[rng.Intn(2)]}
+	n := rng.Intn(maxLen + 1)
+	pr := []int{15, 40, 70}[rng.Intn(3)]
+	for i := 0; i < n; i++ {
+		switch r := rng.Intn(100); {
+		case r < pr:
+			c.wire = append(c.wire, khStep{'R', 0, 0})
+		case r < pr+(100-pr)*6/10:
+			c.wire = append(c.wire, khStep{'j', khDelay(rng, I), 0})
+		default:
+			c.wire = append(c.wire, khStep{"Jxn"[rng.Intn(3)], khDelay(rng, I), 0})
+		}
+	}
+	c.derive()
+	k := n
+	if rng.Intn(3) == 0 {
+		k = rng.Intn(n + 1)
+	}
+	c.tc = kaBetween(I, k)
+	return c
 }
